@@ -245,4 +245,40 @@ theorem getFile_facts (encOn : Bool) (w : Bytes) (m : WMeter) (r) (m' : WMeter)
               obtain ⟨rfl, rfl⟩ := hv
               omega
 
+/-! ## the remaining length-prefixed handshake readers -/
+
+theorem krbRead_eq (s : St) : krbRead s = tlsRecv s := rfl
+
+theorem rawField_facts (s : St) (r : Except Err Unit) (s' : St) (h : rawField s = (r, s')) :
+    EntryFacts 0 s r s' := by
+  unfold rawField at h
+  generalize hg : getInt s = gr at h
+  obtain ⟨r1, s1⟩ := gr
+  obtain ⟨f1, _⟩ := getInt_facts _ _ _ hg
+  cases r1 with
+  | error e =>
+    simp only [Prod.mk.injEq] at h
+    obtain ⟨rfl, rfl⟩ := h
+    exact ⟨f1.law.toQ, np_of_ne (fun hh => f1.np (by rw [hh]))⟩
+  | ok len =>
+    simp only at h
+    by_cases hpos : len > 0
+    · rw [if_pos hpos] at h
+      generalize hb : getBytes len s1 = br at h
+      obtain ⟨r2, s2⟩ := br
+      have f2 := getBytes_facts _ _ _ _ hb
+      cases r2 with
+      | error e =>
+        simp only [Prod.mk.injEq] at h
+        obtain ⟨rfl, rfl⟩ := h
+        exact ⟨by simpa using (f1.law.trans f2.law).toQ, np_of_ne (fun hh => f2.np (by rw [hh]))⟩
+      | ok v =>
+        simp only [Prod.mk.injEq] at h
+        obtain ⟨rfl, rfl⟩ := h
+        exact ⟨by simpa using (f1.law.trans f2.law).toQ, np_ok _⟩
+    · rw [if_neg hpos] at h
+      simp only [Prod.mk.injEq] at h
+      obtain ⟨rfl, rfl⟩ := h
+      exact ⟨f1.law.toQ, np_ok _⟩
+
 end Cedar.Decode
